@@ -94,6 +94,9 @@ theorem interpolate_result_is_new (h : EphH) (n0 : ℕ) (hinv : HInv h n0) (d : 
     · rw [hids]; simp; omega
     · rw [hid2, hids]; simp; omega
 
+/-- the invariant holds at construction (so the hypothesis of the theorems above and below is met), e.g. for three points -/
+example (a b c : Pt) : HInv (EphH.new [a, b, c] none none) 3 := hinv_new [a, b, c] none none
+
 /-- `ephem[i]` is one of the recorded objects (an alias, not a copy) -/
 theorem getitem_is_recorded (h : EphH) (i : Int) (oid : ℕ) (p : Pt) (hr : h.getitem i = .ok (oid, p)) :
     oid ∈ h.ids ∧ p ∈ h.e.pts := by
